@@ -35,6 +35,18 @@ func init() {
 	extraOps["locator.applyo"] = func(a []sexp) string {
 		return implLocate(string(decBytes(a[0])), decSeq(a[3]))
 	}
+	// reg.den: what the real Locate reads (position, ~ = complement strand), in order
+	extraOps["reg.den"] = func(a []sexp) string {
+		d := implRegDen(decReg(a[0]))
+		out := make([]string, len(d))
+		for i, p := range d {
+			out[i] = itoa(p.x)
+			if p.rev {
+				out[i] = "~" + out[i]
+			}
+		}
+		return "[" + strings.Join(out, " ") + "]"
+	}
 	extraOps["selector.match"] = func(a []sexp) string {
 		f, err := gts.Selector(string(decBytes(a[0])))
 		if err != nil {
@@ -216,6 +228,23 @@ func mkMod(form, p, q int) gts.Modifier {
 func genMod(r *rng, total int) gts.Modifier {
 	lo, hi := -total-3, total+3
 	return mkMod(r.intn(5), r.rangeInt(lo, hi), r.rangeInt(lo, hi))
+}
+
+// genModInside draws a modifier whose bounds satisfy 0 <= lo <= hi <= total.
+func genModInside(r *rng, total int) gts.Modifier {
+	lo := r.rangeInt(0, total)
+	hi := r.rangeInt(lo, total)
+	switch r.intn(5) {
+	case 0:
+		return gts.Head(lo)
+	case 1:
+		return gts.Tail(lo - total)
+	case 2:
+		return gts.HeadTail{lo, hi - total}
+	case 3:
+		return gts.HeadHead{lo, hi}
+	}
+	return gts.TailTail{lo - total, hi - total}
 }
 
 // allMods: every modifier of the five forms with offsets in [-total-3, total+3]
@@ -797,12 +826,28 @@ func propC08(r *Run) {
 		flat := flatRegion(ss)
 		total := flat.Len()
 		for j := 0; j < 6; j++ {
-			c08Resize(r, flat, ss, genMod(r.rng, total), fmt.Sprintf("%s%d", orient, len(ss)))
+			m := genMod(r.rng, total)
+			if j%2 == 0 {
+				m = genModInside(r.rng, total)
+			}
+			c08Resize(r, flat, ss, m, fmt.Sprintf("%s%d", orient, len(ss)))
+			if j == 0 {
+				// ties the model's denotation to what the real Locate reads, before and after
+				r.op("reg.den " + encReg(flat))
+				r.op("reg.den " + encReg(flat.Resize(m)))
+			}
 		}
 		if len(ss) >= 2 {
 			nested := nestOne(r.rng, ss)
-			for j := 0; j < 3; j++ {
-				c08Resize(r, nested, nil, genMod(r.rng, total), "nested/"+orient)
+			for j := 0; j < 4; j++ {
+				m := genMod(r.rng, total)
+				if j%2 == 0 {
+					m = genModInside(r.rng, total)
+				}
+				c08Resize(r, nested, nil, m, "nested/"+orient)
+				if j == 0 {
+					r.op("reg.den " + encReg(nested.Resize(m)))
+				}
 			}
 		}
 		if t < 3 {
